@@ -190,14 +190,22 @@ func (fi *frameInfo) regionOf(k int) (region, field string) {
 			field = "after:" + name
 		}
 	}
+	batch, last := 0, ""
 	for _, m := range fi.Marks {
 		if m.Off > k {
 			break
 		}
 		if m.Name == "after-records" {
+			last = ""
 			continue
 		}
-		region, field = m.Name, field+"|"+m.Name
+		if m.Name == "records/batch-prefix" || m.Name == "records/partial-tail" {
+			batch++
+		}
+		last = m.Name
+	}
+	if last != "" {
+		region, field = last, fmt.Sprintf("%s|batch%d:%s", field, batch, last)
 	}
 	return region, field
 }
